@@ -186,6 +186,19 @@ fn gen_issue(thorough: bool, rng: &mut Rng) -> Result<(), String> {
             if let Some(v) = bump_path(&bj, &format!("/committed_attributes/{}", k), 1) { alts.push((format!("blinded.committed[{}]+1", k), v, pj.clone(), 0)); }
         }
         {
+            // a commitment the proof says nothing about (added to the message): must be refused
+            let mut v = bj.clone();
+            if let Some(m) = v["committed_attributes"].as_object_mut() {
+                m.insert("zz_uncovered_commitment".to_string(), json!(pkj["s"].as_str().unwrap_or("4")));
+                alts.push(("blinded.committed add uncovered".into(), v, pj.clone(), 0));
+            }
+            let mut v = bj.clone();
+            if let Some(m) = v["committed_attributes"].as_object_mut() {
+                m.insert(cd.attrs[0].clone(), json!(pkj["z"].as_str().unwrap_or("4")));
+                alts.push(("blinded.committed add uncovered schema attr".into(), v, pj.clone(), 0));
+            }
+        }
+        {
             // hidden attribute set: drop one / add one
             let mut v = bj.clone();
             let arr = v["hidden_attributes"].as_array_mut().unwrap();
@@ -547,8 +560,62 @@ fn gen_ctx(thorough: bool, rng: &mut Rng) -> Result<(), String> {
     Ok(())
 }
 
+/// C05/C06: reference issuer for the KEY proof (the model builds key and proof from chosen exponents over the
+/// fixture's n and S; the real holder judges): complete, legacy (no master_secret), and proofs that leave
+/// generators uncovered - with a recomputed, self-consistent challenge
+fn gen_keyforge(thorough: bool, rng: &mut Rng) -> Result<(), String> {
+    let pool = Pool::load()?;
+    let rounds = if thorough { 6 } else { 1 };
+    let mut k = 0;
+    for _ in 0..rounds {
+        for (name, cd) in pool.defs.iter() {
+            let pkj = jv(&cd.pk)["p_key"].clone();
+            let names: Vec<String> = cd.attrs.iter().chain(cd.non_attrs.iter()).cloned().collect();
+            let first = cd.attrs[0].clone();
+            let second = cd.attrs[cd.attrs.len() - 1].clone();
+            // (variant, uncovered names, r_override (name, kind), expected accept)
+            let variants: Vec<(&str, Vec<String>, Option<(String, &str)>, bool)> = vec![
+                ("complete", vec![], None, true),
+                ("legacy_without_master_secret", vec!["master_secret".into()], None, true),
+                ("one_attribute_uncovered", vec![first.clone()], None, false),
+                ("one_attribute_uncovered_not_a_power_of_s", vec![first.clone()], Some((first.clone(), "n-1")), false),
+                ("last_attribute_uncovered", vec![second.clone()], None, false),
+                ("master_secret_and_one_attribute_uncovered", vec!["master_secret".into(), first.clone()], Some((first.clone(), "n-4")), false),
+                ("two_attributes_uncovered", vec![first.clone(), second.clone()], None, false),
+                ("nothing_covered", names.clone(), None, false),
+                ("covered_generator_replaced", vec![], Some((first.clone(), "n-1")), false),
+                // the key has no generator called master_secret, the proof carries an entry under that name
+                ("key_without_master_secret_proof_names_it", vec![], None, false),
+            ];
+            for (variant, uncovered, ovr, accept) in variants {
+                if uncovered.len() == 2 && uncovered[0] == uncovered[1] { continue; }
+                let n_dec = pkj["n"].as_str().unwrap_or("0").to_string();
+                let names_v: Vec<String> = if variant == "key_without_master_secret_proof_names_it" {
+                    names.iter().map(|a| if a == "master_secret" { "link_secret".to_string() } else { a.clone() }).collect()
+                } else { names.clone() };
+                let attrs: Vec<Value> = names_v.iter().map(|a| {
+                    let mut o = json!({"name": a, "xr": dec_of_hex(&rng.hex_bits(2000)), "xr_tilde": dec_of_hex(&rng.hex_bits(2200)), "covered": !uncovered.contains(a)});
+                    if let Some((on, kind)) = &ovr {
+                        if on == a { o["r_override"] = json!(dec_add(&n_dec, if *kind == "n-1" { -1 } else { -4 })); }
+                    }
+                    o
+                }).collect();
+                emit(&json!({"id": format!("keyforge/{}/{}", k, variant), "op": "key_prove",
+                    "in": {"backend": backend_str(), "n": pkj["n"], "s": pkj["s"], "xz": dec_of_hex(&rng.hex_bits(2000)), "xz_tilde": dec_of_hex(&rng.hex_bits(2200)),
+                           "xrctxt": dec_of_hex(&rng.hex_bits(2000)), "attrs": attrs,
+                           "extra_proof_entries": if variant == "key_without_master_secret_proof_names_it" { json!([["master_secret", dec_of_hex(&rng.hex_bits(2300))]]) } else { json!([]) }},
+                    "impl": {"exec": {"op": "key_proof_verdict", "in": {"def": name}}, "expect_accept": accept, "variant": variant},
+                    "class": {"kind": "reference-key-issuer", "variant": variant, "def": name}}));
+            }
+            k += 1;
+        }
+    }
+    Ok(())
+}
+
 pub fn gen(stream: &str, thorough: bool, rng: &mut Rng) -> Option<Result<(), String>> {
     match stream {
+        "keyforge" => Some(gen_keyforge(thorough, rng)),
         "ctx" => Some(gen_ctx(thorough, rng)),
         "issue" => Some(gen_issue(thorough, rng)),
         "keygen" => Some(gen_keygen(thorough, rng)),
@@ -571,6 +638,21 @@ pub fn exec(op: &str, inp: &Value) -> Option<Result<Value, String>> {
                 let mut s = sig.try_clone()?;
                 Prover::process_credential_signature(&mut s, &vals, &sp, &fac, &cd.pk, &nonce, None, None, None)
             });
+            Ok(status_json(&r))
+        })()),
+        // {def, pk (p_key json), proof} -> the real holder's verdict on key + key-correctness proof
+        "key_proof_verdict" => Some((|| {
+            let cd = load_fixture(inp["def"].as_str().unwrap_or(""))?;
+            let mut full = jv(&cd.pk);
+            full["p_key"] = inp["pk"].clone();
+            let mut hb = Issuer::new_credential_values_builder().map_err(|e| e.to_string())?;
+            hb.add_dec_hidden("master_secret", "12345678901234567890").map_err(|e| e.to_string())?;
+            let hidden = hb.finalize().map_err(|e| e.to_string())?;
+            let nonce = new_nonce().map_err(|e| e.to_string())?;
+            let r: Out<()> = match (from_jv::<CredentialPublicKey>(&full), from_jv::<CredentialKeyCorrectnessProof>(&inp["proof"])) {
+                (Ok(pk), Ok(kp)) => guard(|| Prover::blind_credential_secrets(&pk, &kp, &hidden, &nonce).map(|_| ())),
+                (a, b) => Out::Err(format!("decode: {:?} {:?}", a.err(), b.err())),
+            };
             Ok(status_json(&r))
         })()),
         // {def, known, nonce, blinded, proof} -> ok|err|panic
